@@ -235,9 +235,10 @@ theorem run_append_ok {s s' : PState} {l₁ : List Line} (l₂ : List Line) (h :
     run s (l₁ ++ l₂) = run s' l₂ := by
   rw [run_append, h]
 
-/-- a data row of a section: not blank, not a section name, at most one `#` -/
+/-- a data row of a section: not blank, not a section name (since the reader splits a line at the FIRST `#` only, any
+    comment is accepted) -/
 def RowOk (l : Line) : Prop :=
-  l.tokens.isEmpty = false ∧ sectionOf l.tokens = none ∧ l.comment.any hasHash = false
+  l.tokens.isEmpty = false ∧ sectionOf l.tokens = none
 
 def pushAll (sec : Sec) : PData → List Line → Except Err PData
   | d, [] => .ok d
@@ -259,8 +260,8 @@ theorem step_row (s : PState) (sec : Sec) (l : Line) (h : RowOk l) (hc : s.cur =
     step s l = match push sec s.d l with
       | .ok d => .ok { s with d := d }
       | .error e => .error e := by
-  obtain ⟨h1, h2, h3⟩ := h
-  simp [step, h1, h2, h3, hc]
+  obtain ⟨h1, h2⟩ := h
+  simp [step, h1, h2, hc]
   cases push sec s.d l <;> rfl
 
 theorem run_rows (s : PState) (sec : Sec) (rows : List Line) (h : ∀ r ∈ rows, RowOk r) (hc : s.cur = some sec) :
@@ -366,18 +367,20 @@ theorem pushAll_impropers (d : PData) (rows : List Line) :
   | nil => simp [pushAll]
   | cons r rs ih => simp [pushAll, push, ih, List.append_assoc]
 
-/-- `(tup[1], comment)` of a Masses row -/
-def massEntry (l : Line) : String × Option String := (l.tokens.getD 1 "", l.comment)
+/-- `(int(tup[0]), tup[1], comment)` of a Masses row -/
+def massEntry (l : Line) : Int × String × Option String :=
+  ((readInt (l.tokens.getD 0 "")).getD 0, l.tokens.getD 1 "", l.comment)
 
-theorem pushAll_masses (d : PData) (rows : List Line) (h : ∀ r ∈ rows, ∃ i m rest, r.tokens = i :: m :: rest) :
+theorem pushAll_masses (d : PData) (rows : List Line)
+    (h : ∀ r ∈ rows, ∃ i m rest k, r.tokens = i :: m :: rest ∧ readInt i = some k) :
     pushAll .masses d rows = .ok { d with masses := d.masses ++ rows.map massEntry } := by
   induction rows generalizing d with
   | nil => simp [pushAll]
   | cons r rs ih =>
-    obtain ⟨i, m, rest, hr⟩ := h r (by simp)
-    simp only [pushAll, push, hr]
+    obtain ⟨i, m, rest, k, hr, hk⟩ := h r (by simp)
+    simp only [pushAll, push, hr, hk]
     rw [ih _ (fun r' hr' => h r' (by simp [hr']))]
-    simp [massEntry, hr, List.append_assoc]
+    simp [massEntry, hr, hk, List.append_assoc]
 
 
 /-! ### text -/
@@ -458,10 +461,10 @@ theorem sectionOf_num (t : String) (rest : List String) (h : startsNum t = true)
   unfold sectionOf
   split <;> simp_all
 
-/-- a row that starts with a printed id and whose comment has no `#` is a data row -/
-theorem rowOk_of (t : String) (rest : List String) (c : Option String) (ht : startsNum t = true)
-    (hc : c.any hasHash = false) : RowOk ⟨t :: rest, c⟩ :=
-  ⟨rfl, sectionOf_num t rest ht, hc⟩
+/-- a row that starts with a printed id is a data row -/
+theorem rowOk_of (t : String) (rest : List String) (c : Option String) (ht : startsNum t = true) :
+    RowOk ⟨t :: rest, c⟩ :=
+  ⟨rfl, sectionOf_num t rest ht⟩
 
 
 /-! ### guards on the strings of a structure -/
@@ -545,47 +548,37 @@ theorem mem_numbered {α β} (f : Nat → α → β) (k : Nat) (l : List α) (y 
     · obtain ⟨i, x', hx', hy⟩ := ih (k + 1) h
       exact ⟨i, x', by simp [hx'], hy⟩
 
-theorem rowOk_massLine (a : Atoms) (h : labelsNoHash a = true) (i : Nat) (m : Rat) : RowOk (massLine a i m) := by
+theorem rowOk_massLine (a : Atoms) (i : Nat) (m : Rat) : RowOk (massLine a i m) := by
   unfold massLine
   rw [lineOf_label]
-  exact rowOk_of _ _ _ (startsNum_showNat _) (comment_label_ok _ (hasHash_typeLabel a h i))
+  exact rowOk_of _ _ _ (startsNum_showNat _)
 
 theorem tokens_massLine (a : Atoms) (i : Nat) (m : Rat) :
     (massLine a i m).tokens = [showNat (i + 1), showMicro (quantMicro m)] := by
   unfold massLine; rw [lineOf_label]
 
-theorem rowOk_atomLine (a : Atoms) (h : labelsNoHash a = true) (st : Style) (i : Nat) (r : AtomRow) :
+theorem rowOk_atomLine (a : Atoms) (st : Style) (i : Nat) (r : AtomRow) :
     RowOk (atomLine a st i r) := by
   unfold atomLine
   cases st <;> simp only [] <;> rw [lineOf_label] <;>
-    exact rowOk_of _ _ _ (startsNum_showNat _) (comment_label_ok _ (hasHash_typeLabel a h _))
+    exact rowOk_of _ _ _ (startsNum_showNat _)
 
-theorem rowOk_termLine (a : Atoms) (h : labelsNoHash a = true) (i : Nat) (t : Term) : RowOk (termLine a i t) := by
+theorem rowOk_termLine (a : Atoms) (i : Nat) (t : Term) : RowOk (termLine a i t) := by
   unfold termLine
   rw [lineOf_label]
-  exact rowOk_of _ _ _ (startsNum_showNat _) (comment_label_ok _ (hasHash_atomsLabel a h _))
+  exact rowOk_of _ _ _ (startsNum_showNat _)
 
 theorem splitHash_blank_cons (l : List Char) : splitHash (' ' :: l) = (' ' :: (splitHash l).1, (splitHash l).2) := by
   simp [splitHash]
 
-theorem rowOk_coeffLine (i : Nat) (s : String) (h : oneHash s = true) : RowOk (coeffLine i s) := by
+theorem rowOk_coeffLine (i : Nat) (s : String) : RowOk (coeffLine i s) := by
   unfold coeffLine lineOf
-  have hl : (" " ++ s).toList = ' ' :: s.toList := by rw [String.toList_append]; rfl
-  rw [hl, splitHash_blank_cons]
-  apply rowOk_of _ _ _ (startsNum_showNat _)
-  unfold oneHash at h
-  cases hc : (splitHash s.toList).2 with
-  | none => simp
-  | some c =>
-    rw [hc] at h
-    simp only [Option.map_some, Option.any_some]
-    apply hasHash_strip
-    simpa using h
+  exact rowOk_of _ _ _ (startsNum_showNat _)
 
-theorem rowOk_coeffLines (tbl : List String) (h : tbl.all oneHash = true) : ∀ r ∈ coeffLines tbl, RowOk r := by
+theorem rowOk_coeffLines (tbl : List String) : ∀ r ∈ coeffLines tbl, RowOk r := by
   intro r hr
-  obtain ⟨i, s, hs, rfl⟩ := mem_numbered _ _ _ _ hr
-  exact rowOk_coeffLine i s (List.all_eq_true.mp h s hs)
+  obtain ⟨i, s, _, rfl⟩ := mem_numbered _ _ _ _ hr
+  exact rowOk_coeffLine i s
 
 
 /-! ### the header of a written file -/
@@ -705,34 +698,32 @@ theorem cellData_lists (c : Option Mat3) :
     ∧ (cellData c).angles = [] ∧ (cellData c).dihedrals = [] ∧ (cellData c).impropers = [] := by
   cases c <;> simp [cellData]
 
-theorem rows_mass (a : Atoms) (h : labelsNoHash a = true) : ∀ r ∈ numbered (massLine a) 0 a.typeMasses, RowOk r := by
+theorem rows_mass (a : Atoms) : ∀ r ∈ numbered (massLine a) 0 a.typeMasses, RowOk r := by
   intro r hr
   obtain ⟨i, m, _, rfl⟩ := mem_numbered _ _ _ _ hr
-  exact rowOk_massLine a h i m
+  exact rowOk_massLine a i m
 
-theorem rows_mass_shape (a : Atoms) : ∀ r ∈ numbered (massLine a) 0 a.typeMasses, ∃ i m rest, r.tokens = i :: m :: rest := by
+theorem rows_mass_shape (a : Atoms) :
+    ∀ r ∈ numbered (massLine a) 0 a.typeMasses, ∃ i m rest k, r.tokens = i :: m :: rest ∧ readInt i = some k := by
   intro r hr
   obtain ⟨i, m, _, rfl⟩ := mem_numbered _ _ _ _ hr
-  exact ⟨_, _, _, tokens_massLine a i m⟩
+  exact ⟨_, _, _, _, tokens_massLine a i m, readInt_showNat _⟩
 
-theorem rows_atom (a : Atoms) (h : labelsNoHash a = true) (st : Style) :
+theorem rows_atom (a : Atoms) (st : Style) :
     ∀ r ∈ numbered (atomLine a st) 0 a.atoms, RowOk r := by
   intro r hr
   obtain ⟨i, m, _, rfl⟩ := mem_numbered _ _ _ _ hr
-  exact rowOk_atomLine a h st i m
+  exact rowOk_atomLine a st i m
 
-theorem rows_term (a : Atoms) (h : labelsNoHash a = true) (ts : List Term) : ∀ r ∈ termLines a ts, RowOk r := by
+theorem rows_term (a : Atoms) (ts : List Term) : ∀ r ∈ termLines a ts, RowOk r := by
   intro r hr
   obtain ⟨i, m, _, rfl⟩ := mem_numbered _ _ _ _ hr
-  exact rowOk_termLine a h i m
+  exact rowOk_termLine a i m
 
 /-- **the reader's loop on a written file**: it ends with `start_section = false` and has accumulated exactly the
     rows of each section (and the box / tilt numbers) -/
-theorem run_saveLines (a : Atoms) (st : Style) (h1 : labelsNoHash a = true) (h2 : coeffsOneHash a = true) :
+theorem run_saveLines (a : Atoms) (st : Style) :
     ∃ c, run {} (saveLines a st) = .ok ⟨c, false, finalData a st⟩ := by
-  unfold coeffsOneHash at h2
-  simp only [List.all_append, Bool.and_eq_true] at h2
-  obtain ⟨⟨⟨⟨hp, hb⟩, ha⟩, hd⟩, hi⟩ := h2
   obtain ⟨e1, e2, e3, e4, e5, e6, e7, e8, e9, e10, e11⟩ := cellData_lists a.cell
   -- the header
   have H0 : run {} [⟨["(written", "by", "mofun)"], none⟩, blank,
@@ -758,29 +749,29 @@ theorem run_saveLines (a : Atoms) (st : Style) (h1 : labelsNoHash a = true) (h2 
   -- the sections
   have S1 : run ⟨none, false, cellData a.cell⟩ (block .masses (numbered (massLine a) 0 a.typeMasses))
       = .ok ⟨some .masses, false, D1 a⟩ := by
-    rw [run_block _ rfl .masses _ (rows_mass a h1), pushAll_masses _ _ (rows_mass_shape a)]
+    rw [run_block _ rfl .masses _ (rows_mass a), pushAll_masses _ _ (rows_mass_shape a)]
     simp [D1, e1]
-  obtain ⟨c2, S2⟩ := run_optBlock ⟨some .masses, false, D1 a⟩ rfl .pairCoeffs _ (rowOk_coeffLines _ hp) (D2 a)
+  obtain ⟨c2, S2⟩ := run_optBlock ⟨some .masses, false, D1 a⟩ rfl .pairCoeffs _ (rowOk_coeffLines a.pairCoeffs) (D2 a)
     (by rw [pushAll_pair]; simp [D2, D1, e2])
-  obtain ⟨c3, S3⟩ := run_optBlock ⟨c2, false, D2 a⟩ rfl .bondCoeffs _ (rowOk_coeffLines _ hb) (D3 a)
+  obtain ⟨c3, S3⟩ := run_optBlock ⟨c2, false, D2 a⟩ rfl .bondCoeffs _ (rowOk_coeffLines a.bonds.coeffs) (D3 a)
     (by rw [pushAll_bond]; simp [D3, D2, D1, e3])
-  obtain ⟨c4, S4⟩ := run_optBlock ⟨c3, false, D3 a⟩ rfl .angleCoeffs _ (rowOk_coeffLines _ ha) (D4 a)
+  obtain ⟨c4, S4⟩ := run_optBlock ⟨c3, false, D3 a⟩ rfl .angleCoeffs _ (rowOk_coeffLines a.angles.coeffs) (D4 a)
     (by rw [pushAll_angle]; simp [D4, D3, D2, D1, e4])
-  obtain ⟨c5, S5⟩ := run_optBlock ⟨c4, false, D4 a⟩ rfl .dihedralCoeffs _ (rowOk_coeffLines _ hd) (D5 a)
+  obtain ⟨c5, S5⟩ := run_optBlock ⟨c4, false, D4 a⟩ rfl .dihedralCoeffs _ (rowOk_coeffLines a.dihedrals.coeffs) (D5 a)
     (by rw [pushAll_dihedral]; simp [D5, D4, D3, D2, D1, e5])
-  obtain ⟨c6, S6⟩ := run_optBlock ⟨c5, false, D5 a⟩ rfl .improperCoeffs _ (rowOk_coeffLines _ hi) (D6 a)
+  obtain ⟨c6, S6⟩ := run_optBlock ⟨c5, false, D5 a⟩ rfl .improperCoeffs _ (rowOk_coeffLines a.impropers.coeffs) (D6 a)
     (by rw [pushAll_improper]; simp [D6, D5, D4, D3, D2, D1, e6])
   have S7 : run ⟨c6, false, D6 a⟩ (block .atoms (numbered (atomLine a st) 0 a.atoms))
       = .ok ⟨some .atoms, false, D7 a st⟩ := by
-    rw [run_block _ rfl .atoms _ (rows_atom a h1 st), pushAll_atoms]
+    rw [run_block _ rfl .atoms _ (rows_atom a st), pushAll_atoms]
     simp [D7, D6, D5, D4, D3, D2, D1, e7]
-  obtain ⟨c8, S8⟩ := run_optBlock ⟨some .atoms, false, D7 a st⟩ rfl .bonds _ (rows_term a h1 a.bonds.terms) (D8 a st)
+  obtain ⟨c8, S8⟩ := run_optBlock ⟨some .atoms, false, D7 a st⟩ rfl .bonds _ (rows_term a a.bonds.terms) (D8 a st)
     (by rw [pushAll_bonds]; simp [D8, D7, D6, D5, D4, D3, D2, D1, e8])
-  obtain ⟨c9, S9⟩ := run_optBlock ⟨c8, false, D8 a st⟩ rfl .angles _ (rows_term a h1 a.angles.terms) (D9 a st)
+  obtain ⟨c9, S9⟩ := run_optBlock ⟨c8, false, D8 a st⟩ rfl .angles _ (rows_term a a.angles.terms) (D9 a st)
     (by rw [pushAll_angles]; simp [D9, D8, D7, D6, D5, D4, D3, D2, D1, e9])
-  obtain ⟨c10, S10⟩ := run_optBlock ⟨c9, false, D9 a st⟩ rfl .dihedrals _ (rows_term a h1 a.dihedrals.terms) (D10 a st)
+  obtain ⟨c10, S10⟩ := run_optBlock ⟨c9, false, D9 a st⟩ rfl .dihedrals _ (rows_term a a.dihedrals.terms) (D10 a st)
     (by rw [pushAll_dihedrals]; simp [D10, D9, D8, D7, D6, D5, D4, D3, D2, D1, e10])
-  obtain ⟨c11, S11⟩ := run_optBlock ⟨c10, false, D10 a st⟩ rfl .impropers _ (rows_term a h1 a.impropers.terms)
+  obtain ⟨c11, S11⟩ := run_optBlock ⟨c10, false, D10 a st⟩ rfl .impropers _ (rows_term a a.impropers.terms)
     (finalData a st) (by rw [pushAll_impropers]; simp [finalData, D10, D9, D8, D7, D6, D5, D4, D3, D2, D1, e11])
   refine ⟨c11, ?_⟩
   unfold saveLines
@@ -905,23 +896,70 @@ theorem coeffs_back (sep : String) (tbl : List String) : (coeffLines tbl).map (c
 
 /-! ### masses and labels -/
 
-theorem massEntry_massLine (a : Atoms) (i : Nat) (m : Rat) :
-    massEntry (massLine a i m) = (showMicro (quantMicro m), some (String.ofList (strip (typeLabel a i).toList))) := by
-  unfold massEntry massLine
+/-- what the reader keeps of the Masses line of type `i`: its id, the printed mass, the stripped label -/
+def massTriple (a : Atoms) (i : Nat) (m : Rat) : Int × String × Option String :=
+  (((i + 1 : Nat) : Int), showMicro (quantMicro m), some (String.ofList (strip (typeLabel a i).toList)))
+
+theorem massEntry_massLine (a : Atoms) (i : Nat) (m : Rat) : massEntry (massLine a i m) = massTriple a i m := by
+  unfold massEntry massLine massTriple
   rw [lineOf_label]
-  rfl
+  simp [readInt_showNat]
+
+theorem fd_masses' (a : Atoms) (st : Style) : (finalData a st).masses = numbered (massTriple a) 0 a.typeMasses := by
+  rw [fd_masses, map_numbered]
+  exact numbered_congr _ _ _ _ (fun i m _ => massEntry_massLine a i m)
+
+/-- ascending by id -/
+def AscIds {β} : List (Int × β) → Prop
+  | [] => True
+  | [_] => True
+  | a :: b :: r => a.1 ≤ b.1 ∧ AscIds (b :: r)
+
+theorem ascIds_tail {β} (x : Int × β) (l : List (Int × β)) (h : AscIds (x :: l)) : AscIds l := by
+  cases l with
+  | nil => trivial
+  | cons y r => exact h.2
+
+/-- sorting a list that is already ascending by id changes nothing -/
+theorem sortById_of_asc {β} (l : List (Int × β)) (h : AscIds l) : sortById l = l := by
+  induction l with
+  | nil => rfl
+  | cons x r ih =>
+    have hr := ih (ascIds_tail x r h)
+    show insertById x (sortById r) = x :: r
+    rw [hr]
+    cases r with
+    | nil => rfl
+    | cons y r' => simp [insertById, h.1]
+
+theorem ascIds_numbered {α β} (f : Nat → α → β) (k : Nat) (l : List α) :
+    AscIds (numbered (fun i x => (((i + 1 : Nat) : Int), f i x)) k l) := by
+  induction l generalizing k with
+  | nil => trivial
+  | cons x r ih =>
+    cases r with
+    | nil => trivial
+    | cons y r' =>
+      refine ⟨?_, ih (k + 1)⟩
+      show ((k + 1 : Nat) : Int) ≤ ((k + 1 + 1 : Nat) : Int)
+      omega
+
+/-- the Masses lines of a written file are in id order: sorting them by id changes nothing -/
+theorem sort_masses (a : Atoms) (st : Style) : sortById (finalData a st).masses = numbered (massTriple a) 0 a.typeMasses := by
+  rw [fd_masses']
+  exact sortById_of_asc _ (ascIds_numbered (fun i m => (showMicro (quantMicro m), some (String.ofList (strip (typeLabel a i).toList)))) 0 a.typeMasses)
 
 theorem masses_back (a : Atoms) (st : Style) :
-    mapOpt (fun m => readMicro m.1) (finalData a st).masses = some (a.typeMasses.map quantMicro) := by
-  rw [fd_masses, map_numbered]
+    mapOpt (fun m => readMicro m.2.1) (sortById (finalData a st).masses) = some (a.typeMasses.map quantMicro) := by
+  rw [sort_masses]
   rw [mapOpt_numbered _ _ (fun _ m => quantMicro m)]
   · rw [numbered_const]
   · intro i m _
-    rw [massEntry_massLine]
     exact readMicro_showMicro _
 
-/-- a label that survives the file: no `#`, no line break, no blank at either end -/
-def labelOk (s : String) : Bool := !hasHash s && !hasNewline s && strip s.toList == s.toList
+/-- a label that survives the file: no line break, no blank at either end (a `#` inside is fine: the reader splits a
+    line at its first `#`, which is the writer's) -/
+def labelOk (s : String) : Bool := !hasNewline s && strip s.toList == s.toList
 
 theorem labels_numbered {β} (T : List String) (F : String → β) (k : Nat) (ms : List Rat) (L : List String)
     (hl : ms.length = L.length) (hd : T.drop k = L) :
@@ -947,9 +985,9 @@ theorem labels_numbered {β} (T : List String) (F : String → β) (k : Nat) (ms
 
 theorem labels_back (a : Atoms) (st : Style) (hlen : a.typeLabels.length = a.typeMasses.length)
     (hok : a.typeLabels.all labelOk = true) :
-    (finalData a st).masses.map (·.2) = a.typeLabels.map some := by
-  rw [fd_masses, map_numbered, map_numbered]
-  simp only [massEntry_massLine]
+    (sortById (finalData a st).masses).map (·.2.2) = a.typeLabels.map some := by
+  rw [sort_masses, map_numbered]
+  simp only [massTriple]
   unfold typeLabel
   rw [labels_numbered a.typeLabels (fun l => some (String.ofList (strip l.toList))) 0 a.typeMasses a.typeLabels hlen.symm rfl]
   apply List.map_congr_left
@@ -1076,19 +1114,19 @@ theorem cell_back (c : Option Mat3) (h : cellOk c = true) : cellOf (cellData c) 
 
 /-! ### the guard of the round trip, and the round trip -/
 
-/-- a coefficient string that survives the file token for token: at most one `#`, no line break -/
-def coeffOk (s : String) : Bool := oneHash s && !hasNewline s
+/-- a coefficient string that survives the file token for token: no line break (any number of `#`: the comment starts
+    at the first one) -/
+def coeffOk (s : String) : Bool := !hasNewline s
 
 def allCoeffs (a : Atoms) : List String :=
   a.pairCoeffs ++ a.bonds.coeffs ++ a.angles.coeffs ++ a.dihedrals.coeffs ++ a.impropers.coeffs
 
 /-- the structures the round-trip theorem speaks about (all conditions decidable):
-    at least one atom; one label per mass; labels without `#`, line break or outer blanks; coefficient strings with at
-    most one `#` and no line break; cell absent or LAMMPS-oriented with lengths that print positive; bonds / angles /
-    dihedrals / impropers are 2 / 3 / 4 / 4-tuples of valid atom indices; atom types have a label -/
+    any number of atoms, also none; one label per mass; labels without line break or outer blanks; coefficient strings
+    without line break; cell absent or LAMMPS-oriented with lengths that print positive; bonds / angles / dihedrals /
+    impropers are 2 / 3 / 4 / 4-tuples of valid atom indices; atom types have a label -/
 def LmpOk (a : Atoms) : Bool :=
-  !a.atoms.isEmpty
-  && a.typeLabels.length == a.typeMasses.length
+  a.typeLabels.length == a.typeMasses.length
   && a.typeLabels.all labelOk
   && (allCoeffs a).all coeffOk
   && cellOk a.cell
@@ -1103,27 +1141,23 @@ theorem arity_of (k : Nat) (t : TermTable) (h : arityOk k t = true) : ∀ x ∈ 
   simpa using this
 
 theorem finish_final (guess : List Rat → Option (List String)) (a : Atoms) (st : Style)
-    (hne : a.atoms.isEmpty = false) (hlen : a.typeLabels.length = a.typeMasses.length)
+    (hlen : a.typeLabels.length = a.typeMasses.length)
     (hlab : a.typeLabels.all labelOk = true) (hcell : cellOk a.cell = true)
     (hb : arityOk 2 a.bonds = true) (ha : arityOk 3 a.angles = true) (hd : arityOk 4 a.dihedrals = true)
     (hi : arityOk 4 a.impropers = true) :
     finish guess (finalData a st) st = .ok (norm guess st a) := by
-  have hn : (numbered (atomInts st) 0 a.atoms).isEmpty = false := by
-    cases hh : a.atoms with
-    | nil => rw [hh] at hne; cases hne
-    | cons _ _ => rfl
   unfold finish
   simp only [masses_back, atoms_table, termsOf, fd_bonds, fd_angles, fd_dihedrals, fd_impropers,
     terms_table a _ 2 (arity_of 2 _ hb), terms_table a _ 3 (arity_of 3 _ ha), terms_table a _ 4 (arity_of 4 _ hd),
-    terms_table a _ 4 (arity_of 4 _ hi), atoms_back, terms_back, hn, labels_back a st hlen hlab, labelsOf_some,
+    terms_table a _ 4 (arity_of 4 _ hi), atoms_back, terms_back, labels_back a st hlen hlab, labelsOf_some,
     fd_pair, fd_bond, fd_angle, fd_dihedral, fd_improper, coeffs_back, fd_cell, cell_back _ hcell,
-    bind, Except.bind, pure, Except.pure, throw, throwThe, MonadExceptOf.throw]
+    bind, Except.bind, pure, Except.pure]
   cases st <;> simp [norm, normTerms, normRow, quant, List.map_map, Function.comp_def] <;> rfl
 
 
 theorem saveCheck_ok (a : Atoms) (h : LmpOk a = true) : saveCheck a = none := by
-  simp only [LmpOk, Bool.and_eq_true, Bool.not_eq_true', beq_iff_eq] at h
-  obtain ⟨⟨⟨⟨⟨⟨⟨hne, hlen⟩, hlab⟩, hco⟩, hcell⟩, ⟨⟨⟨hb, ha⟩, hd⟩, hi⟩⟩, hty⟩, ⟨⟨⟨rb, ra⟩, rd⟩, ri⟩⟩ := h
+  simp only [LmpOk, Bool.and_eq_true, beq_iff_eq] at h
+  obtain ⟨⟨⟨⟨⟨⟨hlen, hlab⟩, hco⟩, hcell⟩, ⟨⟨⟨hb, ha⟩, hd⟩, hi⟩⟩, hty⟩, ⟨⟨⟨rb, ra⟩, rd⟩, ri⟩⟩ := h
   have hnl : (allStrings a).any hasNewline = false := by
     rw [List.any_eq_false]
     intro s hs
@@ -1139,10 +1173,10 @@ theorem saveCheck_ok (a : Atoms) (h : LmpOk a = true) : saveCheck a = none := by
     rcases hs' with hs' | hs'
     · have := List.all_eq_true.mp hlab s hs'
       simp only [labelOk, Bool.and_eq_true, Bool.not_eq_true'] at this
-      simp [this.1.2]
+      simp [this.1]
     · have := List.all_eq_true.mp hco s hs'
-      simp only [coeffOk, Bool.and_eq_true, Bool.not_eq_true'] at this
-      simp [this.2]
+      simp only [coeffOk, Bool.not_eq_true'] at this
+      simp [this]
   have hc : cellRejected a.cell = false := by
     cases hcc : a.cell with
     | none => rfl
@@ -1161,34 +1195,18 @@ theorem saveCheck_ok (a : Atoms) (h : LmpOk a = true) : saveCheck a = none := by
   unfold saveCheck
   simp [hnl, hc, hl, hty', hb, ha, hd, hi, rb, ra, rd, ri]
 
-theorem labelsNoHash_of (a : Atoms) (h : a.typeLabels.all labelOk = true) : labelsNoHash a = true := by
-  unfold labelsNoHash
-  rw [List.all_eq_true] at *
-  intro l hl
-  have := h l hl
-  simp only [labelOk, Bool.and_eq_true, Bool.not_eq_true'] at this
-  simp [this.1.1]
-
-theorem coeffsOneHash_of (a : Atoms) (h : (allCoeffs a).all coeffOk = true) : coeffsOneHash a = true := by
-  unfold coeffsOneHash
-  rw [List.all_eq_true] at *
-  intro l hl
-  have := h l hl
-  simp only [coeffOk, Bool.and_eq_true] at this
-  exact this.1
-
 /-- the whole trip for either atom style -/
 theorem roundtrip (guess : List Rat → Option (List String)) (a : Atoms) (st : Style) (h : LmpOk a = true) :
     saveLmp a st = .ok (saveLines a st) ∧ loadLmp guess (saveLines a st) st = .ok (norm guess st a) := by
   have hs := saveCheck_ok a h
-  simp only [LmpOk, Bool.and_eq_true, Bool.not_eq_true', beq_iff_eq] at h
-  obtain ⟨⟨⟨⟨⟨⟨⟨hne, hlen⟩, hlab⟩, hco⟩, hcell⟩, ⟨⟨⟨hb, ha⟩, hd⟩, hi⟩⟩, _⟩, _⟩ := h
+  simp only [LmpOk, Bool.and_eq_true, beq_iff_eq] at h
+  obtain ⟨⟨⟨⟨⟨⟨hlen, hlab⟩, _⟩, hcell⟩, ⟨⟨⟨hb, ha⟩, hd⟩, hi⟩⟩, _⟩, _⟩ := h
   constructor
   · simp [saveLmp, hs]
-  · obtain ⟨c, hr⟩ := run_saveLines a st (labelsNoHash_of a hlab) (coeffsOneHash_of a hco)
+  · obtain ⟨c, hr⟩ := run_saveLines a st
     unfold loadLmp
     rw [hr]
-    exact finish_final guess a st hne hlen hlab hcell hb ha hd hi
+    exact finish_final guess a st hlen hlab hcell hb ha hd hi
 
 
 /-! ### the header as an independent reader sees it -/
@@ -1808,44 +1826,14 @@ theorem mem_normCoeff (sep : String) (hsep : IsSep sep) (s : String) :
 
 theorem coeffOk_normCoeff (sep : String) (hsep : IsSep sep) (s : String) (h : coeffOk s = true) :
     coeffOk (normCoeff sep s) = true := by
-  simp only [coeffOk, Bool.and_eq_true, Bool.not_eq_true'] at h ⊢
-  obtain ⟨h1, h2⟩ := h
-  constructor
-  · -- at most one `#`
-    unfold oneHash
-    rw [normCoeff_toList]
-    have hpre : ∀ c ∈ joinWith sep.toList (splitWs (' ' :: (splitHash s.toList).1)), c ≠ '#' := by
-      intro c hc
-      rcases mem_joinWith _ _ c hc with h | ⟨t, ht, hct⟩
-      · rw [hsep.2 c h]; decide
-      · rcases splitWsGo_mem _ [] t ht c hct with h | h
-        · simp at h
-        · simp only [List.mem_cons] at h
-          rcases h with rfl | h
-          · decide
-          · exact splitHash_fst_nohash _ c h
-    rw [splitHash_append _ _ hpre]
-    unfold oneHash at h1
-    cases hh : (splitHash s.toList).2 with
-    | none => simp [splitHash]
-    | some r =>
-      rw [hh] at h1
-      simp only [splitHash, List.cons_append, List.nil_append]
-      simp only [Char.reduceEq, if_false, if_true]
-      simp only [Bool.not_eq_true', List.any_eq_false] at h1 ⊢
-      intro c hc
-      simp only [List.mem_cons] at hc
-      rcases hc with rfl | hc
-      · decide
-      · exact h1 c (mem_strip _ c hc)
-  · -- no line break
-    unfold hasNewline at h2 ⊢
-    rw [List.any_eq_false] at h2 ⊢
-    intro c hc
-    rcases mem_normCoeff sep hsep s c hc with rfl | rfl | h
-    · decide
-    · decide
-    · exact h2 c h
+  simp only [coeffOk, Bool.not_eq_true'] at h ⊢
+  unfold hasNewline at h ⊢
+  rw [List.any_eq_false] at h ⊢
+  intro c hc
+  rcases mem_normCoeff sep hsep s c hc with rfl | rfl | h'
+  · decide
+  · decide
+  · exact h c h'
 
 theorem quantMicro_quant (x : Rat) : quantMicro (quant x) = quantMicro x := by
   unfold quant; rw [quantMicro_ofMicro]
@@ -1868,14 +1856,10 @@ theorem all_map_coeffOk (sep : String) (hsep : IsSep sep) (l : List String) (h :
 /-- **the result of a trip can make the trip again**: `norm a` satisfies the guard when `a` does -/
 theorem lmpOk_norm (guess : List Rat → Option (List String)) (st : Style) (a : Atoms) (h : LmpOk a = true) :
     LmpOk (norm guess st a) = true := by
-  simp only [LmpOk, Bool.and_eq_true, Bool.not_eq_true', beq_iff_eq] at h
-  obtain ⟨⟨⟨⟨⟨⟨⟨hne, hlen⟩, hlab⟩, hco⟩, hcell⟩, ⟨⟨⟨hb, ha⟩, hd⟩, hi⟩⟩, hty⟩, ⟨⟨⟨rb, ra⟩, rd⟩, ri⟩⟩ := h
+  simp only [LmpOk, Bool.and_eq_true, beq_iff_eq] at h
+  obtain ⟨⟨⟨⟨⟨⟨hlen, hlab⟩, hco⟩, hcell⟩, ⟨⟨⟨hb, ha⟩, hd⟩, hi⟩⟩, hty⟩, ⟨⟨⟨rb, ra⟩, rd⟩, ri⟩⟩ := h
   simp only [allCoeffs, List.all_append, Bool.and_eq_true] at hco
   obtain ⟨⟨⟨⟨cp, cb⟩, ca⟩, cd⟩, ci⟩ := hco
-  have hne' : (norm guess st a).atoms.isEmpty = false := by
-    cases hh : a.atoms with
-    | nil => rw [hh] at hne; cases hne
-    | cons _ _ => simp [norm, hh]
   have hty' : (norm guess st a).atoms.all (fun r => decide (r.ty < (norm guess st a).typeLabels.length)) = true := by
     rw [List.all_eq_true] at hty ⊢
     intro r hr
@@ -1885,8 +1869,8 @@ theorem lmpOk_norm (guess : List Rat → Option (List String)) (st : Style) (a :
       have := hty r' hr'
       simp only [decide_eq_true_eq] at this ⊢
       exact this
-  simp only [LmpOk, Bool.and_eq_true, Bool.not_eq_true', beq_iff_eq, allCoeffs, List.all_append]
-  refine ⟨⟨⟨⟨⟨⟨⟨hne', ?_⟩, ?_⟩, ?_⟩, ?_⟩, ?_⟩, hty'⟩, ?_⟩
+  simp only [LmpOk, Bool.and_eq_true, beq_iff_eq, allCoeffs, List.all_append]
+  refine ⟨⟨⟨⟨⟨⟨?_, ?_⟩, ?_⟩, ?_⟩, ?_⟩, hty'⟩, ?_⟩
   · simp [norm, hlen]
   · simpa [norm] using hlab
   · simp only [norm, normTerms]
@@ -1899,6 +1883,101 @@ theorem lmpOk_norm (guess : List Rat → Option (List String)) (st : Style) (a :
     simp only [hl]
     simp only [termsInRange, norm, normTerms, List.all_map, Function.comp_def] at rb ra rd ri ⊢
     exact ⟨⟨⟨rb, ra⟩, rd⟩, ri⟩
+
+
+/-! ### Masses lines are bound to their type id, not to their position -/
+
+theorem perm_insertById {β} (x : Int × β) (l : List (Int × β)) : (insertById x l).Perm (x :: l) := by
+  induction l with
+  | nil => exact List.Perm.refl _
+  | cons y ys ih =>
+    unfold insertById
+    split
+    · exact List.Perm.refl _
+    · exact (List.Perm.cons y ih).trans (List.Perm.swap x y ys)
+
+theorem perm_sortById {β} (l : List (Int × β)) : (sortById l).Perm l := by
+  induction l with
+  | nil => exact List.Perm.refl _
+  | cons x r ih =>
+    show (insertById x (sortById r)).Perm (x :: r)
+    exact (perm_insertById x _).trans (List.Perm.cons x ih)
+
+theorem sorted_insertById {β} (x : Int × β) (l : List (Int × β)) (h : l.Pairwise (fun a b => a.1 ≤ b.1)) :
+    (insertById x l).Pairwise (fun a b => a.1 ≤ b.1) := by
+  induction l with
+  | nil => simp [insertById]
+  | cons y ys ih =>
+    have hy := List.pairwise_cons.mp h
+    unfold insertById
+    split
+    · rename_i hxy
+      refine List.pairwise_cons.mpr ⟨?_, h⟩
+      intro z hz
+      simp only [List.mem_cons] at hz
+      rcases hz with rfl | hz
+      · exact hxy
+      · exact Int.le_trans hxy (hy.1 z hz)
+    · rename_i hxy
+      refine List.pairwise_cons.mpr ⟨?_, ih hy.2⟩
+      intro z hz
+      have := (perm_insertById x ys).mem_iff.mp hz
+      simp only [List.mem_cons] at this
+      rcases this with rfl | hz'
+      · omega
+      · exact hy.1 z hz'
+
+theorem sorted_sortById {β} (l : List (Int × β)) : (sortById l).Pairwise (fun a b => a.1 ≤ b.1) := by
+  induction l with
+  | nil => simp [sortById]
+  | cons x r ih => exact sorted_insertById x _ ih
+
+/-- two id-sorted arrangements of the same entries are the same list when no id occurs twice -/
+theorem eq_of_perm_sorted {β} (l₁ l₂ : List (Int × β)) (hp : l₁.Perm l₂)
+    (h₁ : l₁.Pairwise (fun a b => a.1 ≤ b.1)) (h₂ : l₂.Pairwise (fun a b => a.1 ≤ b.1))
+    (hinj : ∀ x ∈ l₁, ∀ y ∈ l₁, x.1 = y.1 → x = y) : l₁ = l₂ := by
+  induction l₁ generalizing l₂ with
+  | nil => exact (List.Perm.nil_eq hp)
+  | cons a t₁ ih =>
+    cases l₂ with
+    | nil => exact absurd hp.symm (List.Perm.nil_eq · |> fun h => by cases h)
+    | cons b t₂ =>
+      have ha := List.pairwise_cons.mp h₁
+      have hb := List.pairwise_cons.mp h₂
+      have hbmem : b ∈ a :: t₁ := hp.mem_iff.mpr (by simp)
+      have hamem : a ∈ b :: t₂ := hp.mem_iff.mp (by simp)
+      have hab : a = b := by
+        apply hinj a (by simp) b hbmem
+        have h1 : a.1 ≤ b.1 := by
+          simp only [List.mem_cons] at hbmem
+          rcases hbmem with rfl | hb'
+          · exact Int.le_refl _
+          · exact ha.1 b hb'
+        have h2 : b.1 ≤ a.1 := by
+          simp only [List.mem_cons] at hamem
+          rcases hamem with rfl | ha'
+          · exact Int.le_refl _
+          · exact hb.1 a ha'
+        omega
+      subst hab
+      congr 1
+      exact ih t₂ (List.Perm.cons_inv hp) ha.2 hb.2 (fun x hx y hy => hinj x (by simp [hx]) y (by simp [hy]))
+
+/-- sorting by id forgets the order in which the entries came, when no id occurs twice -/
+theorem sortById_perm {β} (l₁ l₂ : List (Int × β)) (hp : l₁.Perm l₂)
+    (hinj : ∀ x ∈ l₁, ∀ y ∈ l₁, x.1 = y.1 → x = y) : sortById l₁ = sortById l₂ := by
+  apply eq_of_perm_sorted _ _ ((perm_sortById l₁).trans (hp.trans (perm_sortById l₂).symm)) (sorted_sortById _) (sorted_sortById _)
+  intro x hx y hy
+  exact hinj x ((perm_sortById l₁).mem_iff.mp hx) y ((perm_sortById l₁).mem_iff.mp hy)
+
+/-- what the reader builds depends on the Masses lines only through their id-sorted arrangement -/
+theorem finish_masses_perm (guess : List Rat → Option (List String)) (d : PData) (st : Style)
+    (ms : List (Int × String × Option String)) (hp : d.masses.Perm ms)
+    (hinj : ∀ x ∈ d.masses, ∀ y ∈ d.masses, x.1 = y.1 → x = y) :
+    finish guess { d with masses := ms } st = finish guess d st := by
+  unfold finish
+  simp only [sortById_perm d.masses ms hp hinj]
+  rfl
 
 
 end Mofun.Lmp
